@@ -25,16 +25,26 @@ def main(tier, seed, t0):
     for kind, hist, what in res.violations:
         ctx.violation("%s after history %s" % (what, " ; ".join(hist)), "%s|%s" % (kind, " ; ".join(hist)),
                       clause="history", case=dict(history=hist))
-    ctx.evaluations = res.transitions
+    # the same search from a non-initial state (all registers populated, X queried once)
+    sys2 = regsys.RegionSystem(prefix=regsys.POPULATED)
+    res2 = histories.bfs(sys2, depth - 1)
+    for kind, hist, what in res2.violations:
+        full = regsys.POPULATED + hist
+        ctx.violation("%s after history %s" % (what, " ; ".join(full)), "%s|%s" % (kind, " ; ".join(full)),
+                      clause="history", case=dict(history=full))
+    ctx.evaluations = res.transitions + res2.transitions
     try:
         combine_regions_clause(ctx)
     except ImportError:
         pass
     kinds = {}
-    for kind, hist, what in res.violations:
+    for kind, hist, what in res.violations + res2.violations:
         kinds[kind] = kinds.get(kind, 0) + 1
-    cov = dict(states=res.states, transitions=res.transitions, traces_validated_against_impl=res.transitions,
-               levels=res.levels, completed_depth=res.complete_depth, pruned_violating_states=res.pruned,
+    cov = dict(states=res.states + res2.states, transitions=res.transitions + res2.transitions,
+               traces_validated_against_impl=res.transitions + res2.transitions,
+               levels=res.levels, completed_depth=res.complete_depth, pruned_violating_states=res.pruned + res2.pruned,
+               from_populated_state=dict(prefix=regsys.POPULATED, states=res2.states, transitions=res2.transitions, levels=res2.levels,
+                                         completed_depth=res2.complete_depth),
                operations=len(sysm.oplist), alphabet=["%s(%s)" % o for o in sysm.oplist],
                registers=regsys.DEPTHS, violation_kinds=kinds,
                explanation="every transition executes the real Region method on a deep copy of the real objects and the "
@@ -42,8 +52,9 @@ def main(tier, seed, t0):
                            "searched transition system IS the implementation); traces_validated_against_impl therefore "
                            "equals the number of transitions")
     ctx.samples = [dict(history=h) for h in res.samples]
-    ctx.nontrivial_counted = res.states
-    rule = ("breadth-first search over ALL histories of the listed operation alphabet to the stated depth, states "
+    ctx.nontrivial_counted = res.states + res2.states
+    rule = ("breadth-first search over ALL histories of the listed operation alphabet to the stated depth from the empty state, and "
+            "to depth - 1 from a populated state (6 operations in, one register queried); states "
             "de-duplicated on the complete internal representation (pixeldict levels, demoted cache, aliasing); "
             "invariants evaluated on every new state; distinct_nontrivial = distinct implementation states")
     return core.finish(__import__("checks.c08", fromlist=["x"]), ctx, t0, extra_coverage=cov, exhaustive=True, rule=rule)
@@ -70,7 +81,8 @@ def evaluate(clause, case, ctx):
 
 
 ASSUMPTIONS = ["healpy is the trusted geometry kernel (disc/polygon queries, point -> pixel, pixel centres)",
-               "union(renorm=False) is an explicit opt-out of normalisation and is excluded",
+               "union(renorm=False) defers normalisation: after it, and until the next normalising operation on that region, "
+               "the single-representation and area clauses are not judged; membership, pixel set and exports are",
                "mixed-depth union reference: a finer operand contributes every coarse pixel that has a child in it, "
                "a coarser operand contributes all descendants of its pixels",
                "registers at depths 2, 3, 3 and 5; deeper regions are covered by C09/C12"]
